@@ -365,6 +365,19 @@ func (m *memTransport) Request(ctx frugal.FContext, payload []byte) (thrift.TTra
 	return out, nil
 }
 
+// ReplyCount is the number of non-empty reply frames the in-memory server produced.
+func (m *memTransport) ReplyCount() int {
+	m.mu.Lock()
+	defer m.mu.Unlock()
+	n := 0
+	for _, r := range m.Replies {
+		if len(r) > 0 {
+			n++
+		}
+	}
+	return n
+}
+
 // ClientTransport returns an opened client FTransport talking to this server.
 func (e *Env) ClientTransport() (frugal.FTransport, func(), error) {
 	switch e.Kind {
